@@ -32,7 +32,10 @@ with the cache and 2 without (known_findings.json, class
 `cached-call-skips-write-to-function-valued-outer-binding`, fixed by grol 0f2eeb4: `functionChanged`
 counts a miss on the writing environment and empties the cache).
 
-NOT proved: (B) determinism of miss-free calls and (C) the session-level equivalence.  Both are
+(B1) determinism of miss-free calls IS proved, in Props/C04Det.lean (`C04.quiet_call_deterministic`,
+`C04.quiet_call_depends_only_on_trusted`, `C04.constant_param_is_miss`; simulation in GrolProofs/RenQ*.lean).
+
+NOT proved: (B) a cache hit equals an evaluation and (C) the session-level equivalence.  Both are
 relational statements about two runs whose heaps of frames differ (a hit allocates no frame, so
 frame indices in closures and references diverge): they need a simulation relation up to a
 renaming of frame indices through all 19 mutually recursive functions.  A `Safe` fragment for (C)
@@ -259,6 +262,20 @@ theorem C04.purity_footprint (fuel : Nat) (f : FuncVal) (args : List Obj) (st : 
       outcome (eval fuel f.body) (bodyState (stateAfter (extendFunctionEnv f args) st) nenv) = .ok v ∧
       Quiet nenv (eval fuel f.body) (bodyState (stateAfter (extendFunctionEnv f args) st) nenv)) :=
   applyFunction_quiet fuel f args st v hok hq
+
+/-- the same with the binding of the parameters: the callee's counter is 0 after the body (the comparison is with
+0, the counter of the new frame, not with its value after the binding: a miss made while binding a parameter — an
+all-caps parameter name, `C04.constant_param_is_miss` in Props/C04Det.lean — counts) -/
+theorem C04.purity_footprint_full (fuel : Nat) (f : FuncVal) (args : List Obj) (st : St) (v : Obj)
+    (hok : outcome (applyFunction (fuel + 1) (.func f) args) st = .ok v)
+    (hq : Quiet st.cur (applyFunction (fuel + 1) (.func f) args) st) :
+    (∃ out, outcome (cacheGet f.key args) st = .ok (some (v, out))) ∨
+    (outcome (extendFunctionEnv f args) st = .ok (.error v)) ∨
+    (∃ nenv, outcome (extendFunctionEnv f args) st = .ok (.ok nenv) ∧
+      outcome (eval fuel f.body) (bodyState (stateAfter (extendFunctionEnv f args) st) nenv) = .ok v ∧
+      Quiet nenv (eval fuel f.body) (bodyState (stateAfter (extendFunctionEnv f args) st) nenv) ∧
+      missOf (stateAfter (eval fuel f.body) (bodyState (stateAfter (extendFunctionEnv f args) st) nenv)) nenv = 0) :=
+  applyFunction_quiet_full fuel f args st v hok hq
 
 /-- an ingredient of (B): the key test of a lookup (`keyEqList`, Go map-key equality) is identity on
 hashable argument lists without floats — floats are the only hashable values on which a hit can
